@@ -1939,6 +1939,12 @@ void vm_get_slice_range(
     int range2_from, int range2_to,
     int * res_from,  int * res_to, int * oob)
 {
+    if (range2_from < 0 || range2_to < 0)
+    {
+        *oob = 1;
+        return;
+    }
+
     if (range1_from < range1_to)
     {
         *res_from = range1_from + range2_from;
